@@ -101,8 +101,8 @@ theorem slicesFromTargets_nil (fwd : Bool) (limit : Nat) (sel : List Bool) (n : 
     slicesFromTargets fwd limit sel n [] = [] := by
   cases fwd <;> simp [slicesFromTargets, rawSlicesFwd, rawSlicesBwd]
 
-theorem innerFill_fst (fwd : Bool) (limit : Nat) (fixed : Bool) (cells a1 : List α) (c1 : Nat) :
-    (innerFill isna fwd limit fixed cells a1 c1).1 =
+theorem innerFill_fst (fwd : Bool) (limit : Nat) (cells a1 : List α) (c1 : Nat) :
+    (innerFill isna fwd limit cells a1 c1).1 =
       applySlices cells (slicesFromTargets fwd limit (cells.map isna) cells.length
         (binaryTransition (cells.map isna))) a1 := by
   unfold innerFill
@@ -159,9 +159,9 @@ theorem sel_false_cell (cells : List α) (k : Nat) (h : (cells.map isna)[k]? = s
   | none => rw [hc] at h; cases h
   | some y => rw [hc] at h; exact ⟨y, rfl, by simpa using h⟩
 
-theorem twoD_cells_fwd (limit : Nat) (fixed : Bool) (st : Option (Bridge α)) (cells : List α) (d : α)
+theorem twoD_cells_fwd (limit : Nat) (st : Option (Bridge α)) (cells : List α) (d : α)
     (last : Option α) (cnt : Nat) (hinv : Inv isna limit st last cnt) :
-    (innerFill isna true limit fixed cells (bridgeFill isna true limit st cells d).1
+    (innerFill isna true limit cells (bridgeFill isna true limit st cells d).1
         (bridgeFill isna true limit st cells d).2).1 = ffill isna limit cells last cnt := by
   rw [innerFill_fst]
   have h1d : applySlices cells (slicesFromTargets true limit (cells.map isna) cells.length
@@ -227,9 +227,9 @@ theorem naAt_reverse (cells : List α) (r : Nat) (hr : r < cells.length) :
   unfold NaAt
   rw [List.getElem?_reverse hr]
 
-theorem twoD_cells_bwd (limit : Nat) (fixed : Bool) (st : Option (Bridge α)) (cells : List α) (d : α)
+theorem twoD_cells_bwd (limit : Nat) (st : Option (Bridge α)) (cells : List α) (d : α)
     (last : Option α) (cnt : Nat) (hinv : Inv isna limit st last cnt) :
-    ((innerFill isna false limit fixed cells (bridgeFill isna false limit st cells d).1
+    ((innerFill isna false limit cells (bridgeFill isna false limit st cells d).1
         (bridgeFill isna false limit st cells d).2).1).reverse =
       ffill isna limit cells.reverse last cnt := by
   rw [innerFill_fst]
@@ -353,25 +353,25 @@ theorem edge_state (limit : Nat) (l' : List α) (z d : α) (last : Option α) (c
 
 /-! ### the count after a block (code side) -/
 
-theorem innerFill_snd_nil (fwd : Bool) (limit : Nat) (fixed : Bool) (cells a1 : List α) (c1 : Nat)
+theorem innerFill_snd_nil (fwd : Bool) (limit : Nat) (cells a1 : List α) (c1 : Nat)
     (h : binaryTransition (cells.map isna) = []) :
-    (innerFill isna fwd limit fixed cells a1 c1).2 = c1 := by
+    (innerFill isna fwd limit cells a1 c1).2 = c1 := by
   unfold innerFill; simp only [h, if_true]
 
-theorem innerFill_snd_last (fwd : Bool) (limit : Nat) (fixed : Bool) (cells a1 : List α) (c1 : Nat) (sl : Sl)
-    (h : binaryTransition (cells.map isna) ≠ []) (hf : (fwd || !fixed) = true)
-    (hs : (slicesFromTargets fwd limit (cells.map isna) cells.length
+theorem innerFill_snd_last (limit : Nat) (cells a1 : List α) (c1 : Nat) (sl : Sl)
+    (h : binaryTransition (cells.map isna) ≠ [])
+    (hs : (slicesFromTargets true limit (cells.map isna) cells.length
       (binaryTransition (cells.map isna))).getLast? = some sl) :
-    (innerFill isna fwd limit fixed cells a1 c1).2 = sl.stop - sl.start := by
-  unfold innerFill; simp only [h, if_false, hf, if_true, hs]
+    (innerFill isna true limit cells a1 c1).2 = sl.stop - sl.start := by
+  unfold innerFill; simp only [h, if_false, if_true, hs]
 
 theorem innerFill_snd_head (limit : Nat) (cells a1 : List α) (c1 : Nat) (sl : Sl)
     (h : binaryTransition (cells.map isna) ≠ [])
     (hs : (slicesFromTargets false limit (cells.map isna) cells.length
       (binaryTransition (cells.map isna))).head? = some sl) :
-    (innerFill isna false limit true cells a1 c1).2 = sl.stop - sl.start := by
+    (innerFill isna false limit cells a1 c1).2 = sl.stop - sl.start := by
   unfold innerFill
-  simp only [h, if_false, hs, Bool.false_or, Bool.not_true, Bool.false_eq_true]
+  simp only [h, if_false, hs, Bool.false_eq_true]
 
 theorem sel_last_of_getLastD (cells : List α) (d : α) (hne : cells ≠ []) (b : Bool)
     (h : isna (cells.getLastD d) = b) : (cells.map isna)[cells.length - 1]? = some b := by
@@ -395,12 +395,12 @@ theorem no_transition_of_allNA (sel : List Bool) (h : ∀ r, r < sel.length → 
   have h2 := h t (binaryTransition_lt sel t ht)
   rw [h1] at h2; cases h2
 
-theorem twoD_count_fwd (limit : Nat) (fixed : Bool) (st : Option (Bridge α)) (cells : List α) (d : α)
+theorem twoD_count_fwd (limit : Nat) (st : Option (Bridge α)) (cells : List α) (d : α)
     (last : Option α) (cnt : Nat) (hne : cells ≠ []) (hinv : Inv isna limit st last cnt)
     (hz : isna (cells.getLastD d) = true) (w : α)
     (hopen : (ffillState isna cells last cnt).1 = some w)
     (hle : (ffillState isna cells last cnt).2 ≤ limit) (h0 : limit ≠ 0) :
-    (innerFill isna true limit fixed cells (bridgeFill isna true limit st cells d).1
+    (innerFill isna true limit cells (bridgeFill isna true limit st cells d).1
         (bridgeFill isna true limit st cells d).2).2 = (ffillState isna cells last cnt).2 := by
   have hn : 0 < cells.length := List.length_pos_iff.mpr hne
   have hsl : (cells.map isna).length = cells.length := by simp
@@ -408,7 +408,7 @@ theorem twoD_count_fwd (limit : Nat) (fixed : Bool) (st : Option (Bridge α)) (c
   rcases nearest_pred (cells.map isna) cells.length (by simp) with hall | ⟨q, hq, hqf, hafter⟩
   · -- the whole row is missing
     have hts := no_transition_of_allNA (cells.map isna) (by rw [hsl]; exact hall)
-    rw [innerFill_snd_nil _ _ _ _ _ _ hts]
+    rw [innerFill_snd_nil _ _ _ _ _ hts]
     have hallc : ∀ x ∈ cells, isna x = true := by
       have := all_take_na (isna := isna) cells cells.length (fun r hr => (naAt_iff_sel cells r).mpr (hall r hr))
       simpa using this
@@ -459,7 +459,7 @@ theorem twoD_count_fwd (limit : Nat) (fixed : Bool) (st : Option (Bridge α)) (c
       intro h
       rw [h, slicesFromTargets_nil] at hlast
       cases hlast
-    rw [innerFill_snd_last true limit fixed cells _ _ _ hts (by simp) hlast,
+    rw [innerFill_snd_last limit cells _ _ _ hts hlast,
       trimSlice_fwd_len _ _ _ _ (by omega), if_neg (by omega)]
     omega
 
@@ -494,7 +494,7 @@ theorem twoD_count_bwd (limit : Nat) (st : Option (Bridge α)) (cells : List α)
     (hz : isna (cells.headD d) = true) (w : α)
     (hopen : (ffillState isna cells.reverse last cnt).1 = some w)
     (hle : (ffillState isna cells.reverse last cnt).2 ≤ limit) (h0 : limit ≠ 0) :
-    (innerFill isna false limit true cells (bridgeFill isna false limit st cells d).1
+    (innerFill isna false limit cells (bridgeFill isna false limit st cells d).1
         (bridgeFill isna false limit st cells d).2).2 = (ffillState isna cells.reverse last cnt).2 := by
   have hn : 0 < cells.length := List.length_pos_iff.mpr hne
   have hsl : (cells.map isna).length = cells.length := by simp
@@ -502,7 +502,7 @@ theorem twoD_count_bwd (limit : Nat) (st : Option (Bridge α)) (cells : List α)
   rcases first_nonNA (cells.map isna) with hall | ⟨q, hq, hqf, hbefore⟩
   · rw [hsl] at hall
     have hts := no_transition_of_allNA (cells.map isna) (by rw [hsl]; exact hall)
-    rw [innerFill_snd_nil _ _ _ _ _ _ hts]
+    rw [innerFill_snd_nil _ _ _ _ _ hts]
     have hallc : ∀ x ∈ cells, isna x = true := by
       have := all_take_na (isna := isna) cells cells.length (fun r hr => (naAt_iff_sel cells r).mpr (hall r hr))
       simpa using this
